@@ -134,7 +134,7 @@ def parse_assumptions(out: str) -> list[tuple[str, list[str]]]:
             ax = []
             i += 1
             while i < len(lines) and lines[i] and not lines[i].startswith(("Closed under", "Axioms:")):
-                m = re.match(r"^([A-Za-z_][\w.']*)\s*:", lines[i])
+                m = re.match(r"^([A-Za-z_][\w.']*)\s*(:|$)", lines[i])
                 if m:
                     ax.append(m.group(1))
                 i += 1
@@ -317,6 +317,7 @@ class Ctx:
         self.streams: dict = {}
         self.disagreements: list = []   # (stream, case, model, impl)
         self.oracle_failures: list = [] # (signature, case, detail)
+        self._sig_counts: dict = {}
         self.obligation_errors: list[str] = []
         self.theorems: dict[str, list[str]] = {}
         self.trusted_base: list[str] = []
@@ -356,7 +357,10 @@ class Ctx:
             self.extra["disagreements_truncated"] = True
 
     def oracle_fail(self, signature: str, case, detail: str):
-        if len(self.oracle_failures) < 500:
+        # cap per signature so that one defect class cannot hide another
+        n = self._sig_counts.get(signature, 0)
+        self._sig_counts[signature] = n + 1
+        if n < 25:
             self.oracle_failures.append((signature, case, detail))
 
     # ---- model correspondence helper
@@ -489,7 +493,8 @@ def write_evidence(ctx: Ctx, nviol: int, known_hits: dict):
         "streams": ctx.streams,
         "input_distribution": ctx.distribution,
         "disagreements": len(ctx.disagreements),
-        "oracle_failures": len(ctx.oracle_failures),
+        "oracle_failures": sum(ctx._sig_counts.values()),
+        "oracle_failure_signatures": dict(ctx._sig_counts),
         "known_findings_hit": known_hits,
         "exhaustive": bool(ctx.extra.get("exhaustive", False)),
         "explanation": ctx.extra.get("explanation", ""),
